@@ -11,16 +11,23 @@ Proofs (Properties/C02.v).
    reachable by goto + weak merges from the start kernel of an LR(1) grammar is conflict-free
    (pager_reachable_conflict_free).
  * lr1_check (theories/C02/Lr1*.v): a proved-sound executable certificate checker for "the grammar is LR(1)".
- * pager_mirror (theories/C02/Loop*.v): mirror of pager_stategraph + gc; whenever it returns, every core state is
-   Pager-reachable and every closed state is the exact closure of its core, hence conflict-free for LR(1) grammars.
+ * pager_mirror (theories/C02/Loop*.v): mirror of pager_stategraph + gc, the only result-relevant hash order (key order of
+   the closed set being processed) an oracle input.  For EVERY oracle: the loop terminates (pager_mirror_terminates), no
+   indexing/unwrap panic site is reachable (pager_mirror_never_panics; only the StorageT size checks remain), every core
+   state of the result is Pager-reachable and every closed state the exact closure of its core, the edges are exactly
+   the non-empty gotos up to inclusion of contexts (edges_complete / edges_sound).
+ * induced automaton (theories/C02/Induced*.v): the table read off such a graph passes validS/validE, and for an LR(1)
+   grammar validC and single_candidate (pager_mirror_validated, pager_construction_correct); hence it agrees on every
+   input with any validated automaton of the grammar, e.g. the canonical one (pager_parser_agrees(_certified)).
 Per generated grammar: the canonical LR(1) automaton is built by the extracted `canon_lr1`, VALIDATED and certified by
 lr1_check (so "the grammar is LR(1)" is certified, not assumed); the implementation's Pager automaton is validated too,
 must report no conflict, must not have more states, and both are run on the same inputs.  Ties: checks/c02_weak.py
 (weakly_compatible / weakly_merge through the cfg(grmtools_verif) hooks, on real core states and perturbed item sets)
 and checks/c02_loop.py (pager_mirror replays the implementation's recorded hash orders and must rebuild the identical
 StateGraph).
-Still decided per generated grammar only: termination / panic-freedom of the construction loop, consistency of the
-final edges and the state table (validators), "never more states than the canonical automaton".
+Still decided per generated grammar only: that the implementation's run IS the mirror's run (replay: identical graph)
+and that StateTable::new builds the induced table (cell-by-cell comparison on conflict-free grammars; validators on the
+dumped table); "never more states than the canonical automaton".
 """
 from vlib import core, lr, cfg
 from gen import grammars as G
@@ -145,5 +152,10 @@ def run(ctx):
     ctx.coverage["rule"] = ("reduced acyclic grammars, emphasis on LR(1)-not-LALR(1) templates (and embeddings), random reduced grammars, "
                             "nullable-heavy; canonical LR(1) built by extracted canon_lr1 and validated per grammar; "
                             "non-trivial = LR(1) grammar with >= 4 states; distinct by grammar text")
-    ctx.assumptions += ["'is LR(1)' := the validated canonical automaton has no multi-candidate cell",
-                        "the universal-over-grammars claims of Pager's algorithm are decided per generated grammar (partial)"]
+    ctx.assumptions += ["'is LR(1)' := lr1_grammar g (no state of the canonical continuation of the start kernel has two candidate "
+                        "actions on a token); per grammar certified by lr1_check (proved sound) on canon_lr1's validated automaton",
+                        "the theorems about Pager's construction are about the MIRROR pager_mirror (hash order of the processed closed "
+                        "set = oracle input, FIRST/nullable = exact tables, gc = functional model) and the table INDUCED by its graph; "
+                        "that the implementation's run is the mirror's run and that StateTable::new builds the induced table is "
+                        "decided per generated grammar (replay of the recorded trace: identical graph; cell-by-cell table comparison)",
+                        "'never more states than the canonical automaton' is decided per generated grammar only"]
